@@ -177,6 +177,9 @@ class Emitter:
         if f == "path":
             name = ty.segs[-1]
             al = self.v.get("type_alias", {})
+            if "::".join(ty.segs) in al:
+                # a type alias keyed by the whole path (`colorchoice::ColorChoice` next to clap's `ColorChoice`)
+                return al["::".join(ty.segs)]
             if name in al:
                 return al[name]
             if name in INT_NAMES:
@@ -184,6 +187,8 @@ class Emitter:
             if name == "bool":
                 return BOOL
             if name == "Self" and self.self_struct:
+                if self.self_struct not in self.v.get("structs", {}) and self.self_struct in self.v.get("enums", {}):
+                    return ("enum", self.self_struct)      # `impl <enum>`
                 return ("struct", self.self_struct)
             if name == "Option" and ty.args:
                 return ("opt", self.ty_of_ast(ty.args[0]))
@@ -375,6 +380,10 @@ class Emitter:
 
     def e_path(self, e, env, k):
         segs = e.segs
+        full = self.v.get("paths", {}).get("::".join(segs))
+        if full is not None:
+            # optional vocabulary key `paths: {whole path: (term, type)}` (wins over the last-two-segments lookup)
+            return k(full[0], full[1], env)
         if len(segs) == 1:
             v = env.get(segs[0])
             if v is not None:
@@ -847,6 +856,31 @@ class Emitter:
             return None
         return " && ".join(tests)
 
+    def cfg_static(self, attrs):
+        """optional vocabulary key `cfg_static: {"windows": False, ..}`: the value of the #[cfg(..)] attributes when
+        every predicate in them is decided by the vocabulary (the code is translated for ONE configuration:
+        a block that is compiled out is skipped, one that is compiled in is an ordinary statement), else None"""
+        import re
+        tab = self.v.get("cfg_static")
+        if not tab:
+            return None
+        val = None
+        for a in attrs:
+            m = re.match(r'#\[cfg\((.*)\)\]$', a.replace(" ", ""))
+            if not m:
+                continue
+            c = m.group(1)
+            neg = False
+            mm = re.match(r"not\((.*)\)$", c)
+            if mm:
+                neg = True
+                c = mm.group(1)
+            if c not in tab:
+                return None
+            b = bool(tab[c]) != neg
+            val = b if val is None else (val and b)
+        return val
+
     def stmts(self, stmts, i, tail, env, k):
         if i == len(stmts):
             if tail is None:
@@ -854,6 +888,21 @@ class Emitter:
             return self.expr(tail, env, k)
         s = stmts[i]
         rest = lambda env1: self.stmts(stmts, i + 1, tail, env1, k)
+        if s.kind in ("expr", "let") and getattr(s, "attrs", None):
+            cs = self.cfg_static(s.attrs)
+            if cs is False:
+                return rest(env)
+            if cs is True:
+                plain = [a for a in s.attrs if not a.replace(" ", "").startswith("#[cfg")]
+                if s.kind == "expr" and not s.semi and tail is None and all(
+                        x.kind == "expr" and getattr(x, "attrs", None) and self.cfg_static(x.attrs) is False for x in stmts[i + 1:]):
+                    # `#[cfg(a)] { .. } #[cfg(not(a))] { .. }` at the end of a block: the block that is compiled
+                    # in is the value of the enclosing block
+                    return self.expr(s.e, env, k)
+                s2 = N(s.kind)
+                s2.__dict__.update(s.__dict__)
+                s2.attrs = plain
+                s = s2
         if s.kind == "item":
             it = s.item
             if it.kind == "const":
@@ -1342,6 +1391,14 @@ class Emitter:
         """call a translated / vocabulary function described by `shape`:
         dict(coq, self: None|'in'|'inout', params: [('in'|'inout', ty)], ret, total, cfg)"""
         nparams = shape["params"]
+        if shape.get("statics"):
+            for sname, _m, _t in shape["statics"]:
+                if env.get(sname) is None:
+                    raise EmitError("call of %s, which uses the static %s: the caller does not declare it (vocabulary static_use)" % (shape["coq"], sname))
+                if _m == "inout" and env.get(sname).mut != "ref":
+                    raise EmitError("call of %s, which writes the static %s: the caller declares it read-only (vocabulary static_use)" % (shape["coq"], sname))
+            nparams = [(m, t) for _n, m, t in shape["statics"]] + list(nparams)
+            args = [N("path", segs=[n]) for n, _m, _t in shape["statics"]] + list(args)
         if len(args) != len(nparams):
             raise EmitError("call of %s with %d arguments, expected %d" % (shape["coq"], len(args), len(nparams)))
         places = []
@@ -1959,8 +2016,19 @@ class Emitter:
             params.append((mode, self.param_type(pat, ty)))
         ret = self.ty_of_ast(fn.ret)
         sk = fn.self_kind
-        return {"coq": coq_name or ("g_" + fn.name), "self": ("inout" if sk == "refmut" else ("in" if sk else None)),
-                "params": params, "ret": ret, "total": False, "cfg": bool(self.v.get("config_param")), "struct": struct}
+        key = (struct + "::" if struct else "") + fn.name
+        # optional vocabulary key `interior_mut: [fn key]`: a `&self` method that writes through interior
+        # mutability (an atomic store) is translated like `&mut self` (the new value of self is returned)
+        inout = sk == "refmut" or (sk and key in self.v.get("interior_mut", ()))
+        shape = {"coq": coq_name or ("g_" + fn.name), "self": ("inout" if inout else ("in" if sk else None)),
+                 "params": params, "ret": ret, "total": False, "cfg": bool(self.v.get("config_param")), "struct": struct}
+        # optional vocabulary keys `statics: {NAME: type}` and `static_use: {fn key: [(NAME, "in" | "inout")]}`:
+        # a `static` the function (or a callee) reads / writes is an extra leading parameter, threaded like a
+        # `&mut` parameter when "inout"; a caller passes its own variable of the same name
+        su = self.v.get("static_use", {}).get(key)
+        if su:
+            shape["statics"] = [(n, m, self.v["statics"][n]) for n, m in su]
+        return shape
 
     def param_type(self, pat, ty):
         if pat.kind == "pident":
@@ -1993,6 +2061,12 @@ class Emitter:
             binders.append("(%s : %s)" % (sn, self.coq_ty(sty)))
             if shape["self"] == "inout":
                 outs.append("self")
+        for sname, smode, sty in shape.get("statics", ()):
+            n = self.fresh(sname)
+            env = env.bind(sname, n, sty, "ref" if smode == "inout" else False)
+            binders.append("(%s : %s)" % (n, self.coq_ty(sty)))
+            if smode == "inout":
+                outs.append(sname)
         for (pat, ty), (mode, pty) in zip(fn.params, shape["params"]):
             p = pat
             while p.kind == "pref":
